@@ -147,9 +147,10 @@ def gen_cases(ctx):
                         ops += [K(0, t_new, d_new, [p]), L(0, now)]
                         cases.append(case(ops, flock=rng.randrange(2)))
     # G2: several sectors: (prefix of the stream) x (subset of sectors), and independent per-sector progress
-    sizes = [480, 495, 496, 497, 512, 1007, 1008, 1009, 1100, 1520, 2033, 2600]
+    # (the bit-by-bit CRC of the extracted model costs about 2 us per byte: the quick tier keeps the multi-sector family small)
+    sizes = [496, 497, 1008, 1520, 2600]
     if not ctx.quick():
-        sizes += [498, 1024, 1536, 2032, 2544, 3000]
+        sizes += [480, 495, 498, 512, 1007, 1009, 1024, 1100, 1536, 2032, 2033, 2544, 3000]
     for n_new in sizes:
         k = nsect(n_new)
         total = 16 + n_new
@@ -161,7 +162,7 @@ def gen_cases(ctx):
             pre = [] if shape == 'absent' else [S(0, 2000, d_old)]
             combos = set()
             for p in rng.sample(marks, min(len(marks), ctx.scale(2, 6))):
-                for mask in range(1 << k):
+                for mask in (range(1 << k) if k <= 4 or not ctx.quick() else rng.sample(range(1 << k), 16)):
                     combos.add((p, mask))
             for mask in rng.sample(range(1 << k), min(1 << k, ctx.scale(4, 16))):
                 for p in marks:
@@ -169,7 +170,7 @@ def gen_cases(ctx):
             for p, mask in sorted(combos):
                 ps = [p if (mask >> s) & 1 else 0 for s in range(k)]
                 cases.append(case(pre + [K(0, 3000, d_new, ps), L(0, rng.choice([1000, 1000, 2500, 3500]))], flock=rng.randrange(2)))
-            for _ in range(ctx.scale(12, 60)):
+            for _ in range(ctx.scale(8, 60)):
                 ps = [rng.choice([0, total, rng.randrange(16, total + 1), rng.choice(marks)]) for s in range(k + rng.randrange(0, 2))]
                 cases.append(case(pre + [K(0, 3000, d_new, ps), L(0, rng.choice([1000, 2500]))], flock=rng.randrange(2)))
     # G3: deadline boundaries incl. the int64 range
@@ -195,8 +196,13 @@ def gen_cases(ctx):
             raw = hdr(t, d, crc, size) + d + rb(rng, rng.choice([0, 0, 3]))
             if kind == 1:
                 raw = raw[:rng.randrange(0, len(raw) + 1)]
-        nm = rng.choice([V0, V1, V2] + BADNAMES)
-        tail = rng.choice([[L(0, now)], ['G:%d' % now, L(0, now)], ['G:%d' % now, 'G:%d' % (now + 10000), L(0, now)], [L(0, now), 'G:%d' % now]])
+        nm = rng.choice([V0, V1, V2, V0, V1] + BADNAMES)
+        if valid_name(nm):
+            tail = rng.choice([[L(0, now)], ['G:%d' % now, L(0, now)], ['G:%d' % now, 'G:%d' % (now + 10000), L(0, now)], [L(0, now), 'G:%d' % now]])
+        else:
+            # the storage API is never called with a malformed name (session_sid::valid_sid filters them; sid_to_pos would read an
+            # uninitialised lock index): such files are only seen by gc, which must leave them alone
+            tail = rng.choice([['G:%d' % now], ['G:%d' % now, 'G:%d' % (now + 10000)]])
         cases.append(case([P(0, raw)] + tail, names=(nm,), flock=rng.randrange(2)))
     # G5: gc over a directory with live, expired, crashed and foreign files
     for _ in range(ctx.scale(400, 4000)):
@@ -208,6 +214,8 @@ def gen_cases(ctx):
             d = rb(rng, rng.randrange(0, 20))
             if r == 0:
                 continue
+            elif not valid_name(names[i]):
+                ops.append(P(i, hdr(t, d) + d if r < 4 else garbage(rng, rng.choice([0, 3, 8, 16, 30]))))
             elif r in (1, 2):
                 ops.append(S(i, t, d))
             elif r == 3:
@@ -216,7 +224,7 @@ def gen_cases(ctx):
                 ops.append(P(i, garbage(rng, rng.choice([0, 3, 8, 16, 30]))))
         rng.shuffle(ops)
         ops.append('G:%d' % rng.choice([1000, 1000, 1500]))
-        ops += [L(i, 1000) for i in range(len(names))]
+        ops += [L(i, 1000) for i in range(len(names)) if valid_name(names[i])]
         cases.append(case(ops, names=names, flock=rng.randrange(2)))
     # G6: random histories over two sessions, small alphabets so that old and new payloads share bytes
     for _ in range(ctx.scale(2500, 30000)):
@@ -455,7 +463,9 @@ def run(ctx):
                             'histories; constructed CRC collisions. Non-trivial = script contains a crashed save, a garbage file or a gc; '
                             'distinct = distinct script lines.')
     ctx.coverage['exhaustive'] = False
-    base = os.path.join(ctx.workdir, 'run-%d' % os.getpid())
+    # tmpfs: the scripts create and unlink tens of thousands of small files (ext4 journalling makes that 50x slower)
+    shm = '/dev/shm' if os.access('/dev/shm', os.W_OK) else ctx.workdir
+    base = os.path.join(shm, 'C18-run-%d' % os.getpid())
     os.makedirs(base, exist_ok=True)
     try:
         vlib.differential(ctx, cases, exe, mexe, oracle, nontrivial, classify, impl_env={'C18_DIR': base})
